@@ -413,6 +413,9 @@ func scenarioValues(seed uint64, n, rounds, scriptLen int, full bool) {
 	for round := 0; round < rounds; round++ {
 		r := hx.NewRand(seed*7919 + uint64(round)*31 + uint64(n))
 		d := graphs.GenWith(r, true)
+		if round == 0 {
+			d = graphs.Corner()
+		}
 		src := d.Source()
 		in := graphs.Instantiate(d, src)
 		o := Out{Kind: "round", Scenario: "values", Seed: seed, N: n, Round: round, Src: src, Dist: map[string]int{}}
@@ -769,6 +772,9 @@ func scenarioFootprints(seed uint64, rounds int) {
 	for round := 0; round < rounds; round++ {
 		r := hx.NewRand(seed*104729 + uint64(round))
 		d := graphs.Gen(r)
+		if round == 0 {
+			d = graphs.Corner()
+		}
 		src := d.Source()
 		o := FOut{Kind: "fp", Seed: seed, Round: round, Desc: d, Src: src}
 		probe := graphs.Instantiate(d, src)
